@@ -71,6 +71,21 @@ impl Plugins {
             meta.get("message_type").and_then(Value::as_str).unwrap_or("").to_string(),
         ))
     }
+    /// parse_mt twice on the SAME dataflow message and target (first `mt1`, then `mt2`): the method reported after the second run
+    pub fn parse_twice(&self, mt1: &str, mt2: &str) -> Result<String, String> {
+        let mut m = Message::from_value(&json!({}));
+        for mt in [mt1, mt2] {
+            {
+                let d = m.data_mut().as_object_mut().unwrap();
+                d.insert("op".into(), json!("parse"));
+                d.insert("mt".into(), json!(mt));
+            }
+            m.invalidate_context_cache();
+            self.rt.block_on(self.engine.process_message(&mut m)).map_err(|e| format!("{e:?}"))?;
+            if m.has_errors() { return Err(format!("{:?}", m.errors)); }
+        }
+        Ok(m.metadata().get("out").and_then(|x| x.get("method")).and_then(Value::as_str).unwrap_or("").to_string())
+    }
     /// validate_mt: returns {valid, errors, message_type?}
     pub fn validate(&self, mt: &str) -> Result<Value, String> {
         let m = self.run("validate", &json!({}), vec![("mt", json!(mt))])?;
